@@ -50,7 +50,7 @@ Extraction "selen_model.ml"
   fi_is_empty fi_is_fixed fi_size fi_step_count fi_round_to_step fi_floor_to_step fi_ceil_to_step fi_intersect fi_intersects
   fi_assign fi_remove_below fi_remove_above fi_mid fi_save fi_restore tsmin_ff tsmax_ff tsmin_fi tsmax_fi ceil_as_i32 floor_as_i32
   tsmin_range_f tsmax_range_f fop_apply fop_run magn_b magn_op_b
-  mk_flin_eq mk_flin_le mk_flin_ne mk_flin_eq_reif mk_flin_le_reif mk_flin_ne_reif mk_fleq mk_flt mk_fgeq mk_fgt mk_feq mk_ilin_le_mixed mk_fadd mk_fsub
+  mk_flin_eq mk_flin_le mk_flin_ne mk_flin_eq_reif mk_flin_le_reif mk_flin_ne_reif mk_fleq mk_flt mk_fgeq mk_fgt mk_feq mk_ilin_le_mixed mk_fadd mk_fsub mk_fmul
   fpropagate_all fsolve_first fminimize_seq fall_assigned fsolution
   root_lp_gate fast_path_consulted dispatch lp_rows lp_vars linear_lowering
   lin_in_rangeb cons_in_rangeb expr_in_rangeb emag boundedb add_in_rangeb sum_in_rangeb view_in_rangeb vset_in_rangeb
